@@ -244,7 +244,8 @@ pub fn rw_chain(r: &R, e: &Expr) -> Option<String> {
     let src_idx = calls.iter().position(|c| (c.method == "iter" || c.method == "into_iter") && c.args.is_empty())?;
     // the base for the chain is base + calls[..src_idx]; recover it as the receiver of calls[src_idx]
     let mut recv: &Expr = e;
-    for _ in 0..(calls.len() - src_idx) {
+    let real_len = if lazy { calls.len() - 1 } else { calls.len() };
+    for _ in 0..(real_len - src_idx) {
         recv = match recv {
             Expr::MethodCall(m) => &m.receiver,
             Expr::Paren(p) => match &*p.expr {
